@@ -73,6 +73,16 @@ def call_items(pid, tier):
         ok, detail = False, ""
         if fn is None:
             detail = "function not found"
+        elif c["where"].startswith("assign:"):
+            tgt = c["where"][7:]
+            vals = [ast.unparse(n.value) for n in ast.walk(fn) if isinstance(n, ast.Assign)
+                    for t in n.targets for e in (t.elts if isinstance(t, ast.Tuple) else [t]) if ast.unparse(e) == tgt]
+            ok = want in vals
+            detail = "" if ok else "%s is assigned %s, expected %s" % (tgt, vals, want)
+        elif c["where"] == "test":
+            tests = [ast.unparse(n.test) for n in ast.walk(fn) if isinstance(n, (ast.If, ast.While, ast.IfExp))]
+            ok = want in tests
+            detail = "" if ok else "no branch on %s (tests: %s)" % (want, tests)
         elif c["where"] == "return":
             rets = [ast.unparse(r.value) for r in ast.walk(fn) if isinstance(r, ast.Return) and r.value is not None]
             ok = rets == [want]
